@@ -45,10 +45,10 @@ def cfgs(prop, tier):
                   "FailKinds": '{"err", "oog", "rev"}', "MaxFailPos": "3", "InitProgs": '{"stop", "sstore", "revert", "nodeposit"}',
                   "TopCreates": "TRUE"}
         return dict(
-            mc=[] if q else [dict(common, MaxInstr="3", MaxNodes="4")],
+            mc=[] if q else [dict(common, MaxInstr="3", MaxNodes="3")],          # 30 M states, about 4 min
             scn=[dict(common, MaxInstr="2", MaxNodes="3")] if q else
-                [dict(common, MaxInstr="3", MaxNodes="3", FailKinds='{"err"}'),
-                 dict(common, MaxInstr="2", MaxNodes="4")],
+                [dict(common, MaxInstr="2", MaxNodes="3"),                       # 0.27 M scenarios x 5 forks
+                 dict(common, MaxInstr="3", MaxNodes="3", FailKinds='{"err"}', MaxFailPos="2", Targets='{"a", "b", "n"}', _forks="London")],
             forks=["London"] if q else ["Byzantium", "Istanbul", "London", "Shanghai", "Cancun"])
     if prop == "C05":
         # A: firing sequence at provider level (no Aspect bound: the provider sees every firing)
@@ -63,9 +63,11 @@ def cfgs(prop, tier):
         if q:
             return dict(mc=[], scn=[a, b], forks=["London"])
         return dict(
-            mc=[dict(a, MaxInstr="3", MaxNodes="4", ArgLens="{0, 1, 33}", JPInit="{TRUE, FALSE}", CallKinds=ALLK)],
-            scn=[dict(a, ArgLens="{0, 1, 33}", JPInit="{TRUE, FALSE}", CallKinds=ALLK, Targets='{"a", "b", "n", "p"}'),
-                 dict(b, MaxInstr="2", MaxNodes="3", MaxFailPos="2", ArgLens="{0, 33}", BoundSets='{{"b"}, {"a", "b"}}')],
+            mc=[],
+            scn=[dict(a, JPInit="{TRUE, FALSE}", CallKinds='{"CALL", "DELEGATECALL", "STATICCALL"}'),
+                 dict(a, ArgLens="{0, 33}", CallKinds='{"CALL", "CALLCODE"}', Targets='{"a", "b", "n", "p"}'),
+                 dict(b, MaxFailPos="2", ArgLens="{0, 1, 33}", BoundSets='{{"b"}, {"a", "b"}}', CallKinds=ALLK),
+                 dict(b, MaxInstr="2", MaxNodes="3", ArgLens="{0, 1}", CallKinds='{"CALL"}', Targets='{"a", "b"}', Values="{0}", _forks="London")],
             forks=["London", "Cancun"])
     if prop == "C07":
         common = {"Ops": '{"SSTORE", "CALL", "CREATE", "CREATE2", "SELFDESTRUCT", "STOP", "REVERT", "INVALID"}',
@@ -73,8 +75,9 @@ def cfgs(prop, tier):
                   "FailKinds": '{"err", "oog"}', "MaxFailPos": "3",
                   "InitProgs": '{"stop", "revert", "big"}', "TopCreates": "TRUE", "MaxTop": "2"}
         return dict(
-            mc=[dict(common, MaxInstr="2", MaxNodes="3", MaxDepth="1", MaxTop="1")] if q else [dict(common, MaxInstr="3", MaxNodes="4", MaxDepth="1")],
-            scn=[dict(common, MaxInstr="2", MaxNodes="3")] if q else [dict(common, MaxInstr="3", MaxNodes="4", MaxTop="1")],
+            mc=[dict(common, MaxInstr="2", MaxNodes="3", MaxDepth="1", MaxTop="1")] if q else [dict(common, MaxInstr="3", MaxNodes="3", MaxDepth="1", MaxTop="1")],
+            scn=[dict(common, MaxInstr="2", MaxNodes="3")] if q else
+                [dict(common, MaxInstr="2", MaxNodes="3"), dict(common, MaxInstr="3", MaxNodes="3", MaxTop="1", FailKinds='{"err"}', MaxFailPos="2", _forks="London")],
             forks=["London"] if q else ["Byzantium", "London", "Cancun"])
     if prop == "C08":
         common = {"Ops": '{"CALL", "CREATE", "CREATE2", "STOP", "RETURN", "REVERT", "INVALID"}',
@@ -82,19 +85,22 @@ def cfgs(prop, tier):
                   "ArgLens": "{1, 33}", "Overs": "{FALSE, TRUE}", "FailKinds": '{"err"}', "MaxFailPos": "1",
                   "InitProgs": '{"stop", "revert"}', "TopCreates": "TRUE"}
         return dict(
-            mc=[] if q else [dict(common, MaxInstr="3", MaxNodes="4")],
-            scn=[dict(common, MaxInstr="2", MaxNodes="3")] if q else [dict(common, MaxInstr="3", MaxNodes="4", ArgLens="{1}")],
+            mc=[],
+            scn=[dict(common, MaxInstr="2", MaxNodes="3")] if q else
+                [dict(common, MaxInstr="2", MaxNodes="3"), dict(common, MaxInstr="3", MaxNodes="3", ArgLens="{1}", MaxFailPos="0", Targets='{"a", "b", "n"}', _forks="London")],
             forks=["London"] if q else ["Byzantium", "London", "Cancun"])
     if prop == "C10":
         common = {"Ops": '{"SSTORE", "REGKEY", "JV", "CALL", "CREATE", "STOP", "REVERT"}', "CallKinds": ALLK,
                   "Targets": '{"a", "b"}', "Values": "{0, 2}", "Slots": "{0, 1}", "SVals": "{1, 2}",
                   "FailKinds": '{"err"}', "MaxFailPos": "0", "InitProgs": '{"regjv"}', "JPInit": "{FALSE}"}
         return dict(
-            mc=[] if q else [dict(common, MaxInstr="5", MaxNodes="3", Slots="{0}")],
+            mc=[],
             scn=[dict(common, MaxInstr="4", MaxNodes="2", Slots="{0}"), dict(common, MaxInstr="3", MaxNodes="3"),
                  # refused value calls (insufficient balance) between journal instructions, deeper in instructions, narrower alphabet
                  dict(common, MaxInstr="4", MaxNodes="3", Slots="{0}", Ops='{"REGKEY", "JV", "CALL", "STOP"}', CallKinds='{"CALL"}', SVals="{1}")] if q else
-                [dict(common, MaxInstr="5", MaxNodes="3", Slots="{0}")],
+                [dict(common, MaxInstr="4", MaxNodes="2", Slots="{0}"), dict(common, MaxInstr="3", MaxNodes="3"),
+                 dict(common, MaxInstr="4", MaxNodes="3", Slots="{0}", SVals="{1}", Values="{0}", _forks="London"),
+                 dict(common, MaxInstr="5", MaxNodes="3", Slots="{0}", Ops='{"REGKEY", "JV", "CALL", "STOP"}', CallKinds='{"CALL", "DELEGATECALL"}', SVals="{1}", _forks="London")],
             forks=["London"] if q else ["Frontier", "London", "Cancun"])
     if prop == "C13":
         common = {"Ops": '{"CALL", "CREATE", "CREATE2", "SELFDESTRUCT", "STOP", "REVERT", "INVALID"}',
@@ -102,8 +108,9 @@ def cfgs(prop, tier):
                   "Values": "{0, 1, 2}", "FailKinds": '{"err"}', "MaxFailPos": "1",
                   "InitProgs": '{"stop", "revert"}', "TopCreates": "TRUE", "MaxTop": "2"}
         return dict(
-            mc=[] if q else [dict(common, MaxInstr="3", MaxNodes="4")],
-            scn=[dict(common, MaxInstr="2", MaxNodes="3")] if q else [dict(common, MaxInstr="3", MaxNodes="4", MaxTop="1")],
+            mc=[],
+            scn=[dict(common, MaxInstr="2", MaxNodes="3")] if q else
+                [dict(common, MaxInstr="2", MaxNodes="3"), dict(common, MaxInstr="3", MaxNodes="3", MaxTop="1", MaxFailPos="0", Targets='{"a", "b", "n"}', _forks="London")],
             forks=["London"] if q else ["Byzantium", "London", "Cancun"])
     raise InfraError("no frame config for " + prop)
 
@@ -193,8 +200,9 @@ def check(prop, tier):
     v.notes["negative_configs"] = neg
     # 3. model -> code: every behaviour in the replay bound is executed on the real EVM
     for ov in c["scn"]:
-        r = replay(v, prop, ov, c["forks"], 1500 if q else 3400)
-        v.notes.setdefault("scn_runs", []).append({"overrides": ov, "scenarios": r["scenarios"], "runs": r["runs"], "forks": c["forks"],
+        forks = ov["_forks"].split(",") if "_forks" in ov else c["forks"]
+        r = replay(v, prop, ov, forks, 1500 if q else 3400)
+        v.notes.setdefault("scn_runs", []).append({"overrides": ov, "scenarios": r["scenarios"], "runs": r["runs"], "forks": forks,
                                                    "mismatching_components": r.get("byComp")})
     # 4. beyond the exhaustive bound: random behaviours of a larger instance of the same model (tlc -simulate), replayed likewise
     big = {k: x for k, x in c["scn"][0].items() if not k.startswith("_")}
